@@ -90,10 +90,16 @@ pub fn run_session(calls: &[&str]) -> String {
                 };
                 let mut done = false;
                 waiting_input = false;
+                // `cap` bounds the calls that used up their whole quantum; 20000 bounds all calls
                 let cap = if n <= 64 { 3000 } else { 100 };
-                for _ in 0..cap {
+                let mut running = 0;
+                for _ in 0..20000 {
                     let e = rt.execute(n);
                     if let Event::Running = e {
+                        running += 1;
+                        if running > cap {
+                            break;
+                        }
                         continue;
                     }
                     if let Event::Errors(errs) = &e {
